@@ -1707,6 +1707,59 @@ fn gen_tls_stalls(out: &mut Vec<Case>, rng: &mut Rng, thorough: bool) {
             .collect();
         out.push(Case::TlsStall { kind: "tls-stalled-handshake/several-peers".to_string(), peers, settle_ms: 60 });
     }
+    // many peers, around the round numbers a bound on pending negotiations
+    // would plausibly use: each sends the 3-byte prefix 16 03 01 and stays
+    let mut many = vec![63usize, 64, 65, 130, 260];
+    if thorough {
+        many.extend_from_slice(&[127, 128, 129, 255, 256, 257, 520, 1030]);
+    }
+    for npeers in many {
+        let peers = (0..npeers).map(|_| vec![lit(&hello[..3])]).collect();
+        out.push(Case::TlsStall {
+            kind: format!("tls-stalled-handshake/many-peers-{}", npeers),
+            peers,
+            settle_ms: 100,
+        });
+    }
+}
+
+/// soft RLIMIT_NOFILE := min(hard, 65536), if it is lower
+fn raise_fd_limit() {
+    #[repr(C)]
+    struct Rlimit {
+        cur: u64,
+        max: u64,
+    }
+    extern "C" {
+        fn getrlimit(resource: i32, rlim: *mut Rlimit) -> i32;
+        fn setrlimit(resource: i32, rlim: *const Rlimit) -> i32;
+    }
+    let mut r = Rlimit { cur: 0, max: 0 };
+    if unsafe { getrlimit(7, &mut r) } == 0 {
+        let want = r.max.min(65536);
+        if r.cur < want {
+            let n = Rlimit { cur: want, max: r.max };
+            unsafe { setrlimit(7, &n) };
+        }
+    }
+}
+
+/// descriptors the process may still open (soft RLIMIT_NOFILE minus those in use)
+fn fd_headroom() -> usize {
+    #[repr(C)]
+    struct Rlimit {
+        cur: u64,
+        max: u64,
+    }
+    extern "C" {
+        fn getrlimit(resource: i32, rlim: *mut Rlimit) -> i32;
+    }
+    let mut r = Rlimit { cur: 0, max: 0 };
+    if unsafe { getrlimit(7, &mut r) } != 0 {
+        return 0;
+    }
+    let used = std::fs::read_dir("/proc/self/fd").map(|d| d.count()).unwrap_or(1024);
+    (r.cur as usize).saturating_sub(used)
 }
 
 fn gen_tls(out: &mut Vec<Case>, rng: &mut Rng, n_random: usize) {
@@ -2114,15 +2167,36 @@ fn run_case(c: &Case, addrs: &[SocketAddr], accept_errors: &[Arc<AtomicUsize>]) 
             }
         }
         Case::TlsStall { kind, peers, settle_ms } => {
-            // open the peers, send each its prefix, and KEEP them open
+            // open the peers, send each its prefix, and KEEP them open.  Client
+            // and server live in one process: every peer costs two
+            // descriptors; a peer count that does not fit under RLIMIT_NOFILE
+            // (with room for the other workers) is skipped and tagged.
+            static MANY_PEERS: Mutex<()> = Mutex::new(());
+            // only one crowd at a time, so that the descriptor budget below holds
+            let _crowd = if peers.len() > 32 {
+                Some(MANY_PEERS.lock().unwrap_or_else(|p| p.into_inner()))
+            } else {
+                None
+            };
             let mut held = vec![];
-            for p in peers {
-                if let Ok(mut s) = TcpStream::connect_timeout(&addrs[TLS], Duration::from_secs(5)) {
-                    let _ = s.set_nodelay(true);
-                    let _ = s.set_write_timeout(Some(Duration::from_secs(5)));
-                    let _ = s.write_all(&expand(p));
-                    held.push(s);
+            let fits = peers.len() * 2 + 400 <= fd_headroom();
+            let mut skipped = !fits;
+            if fits {
+                for p in peers {
+                    match TcpStream::connect_timeout(&addrs[TLS], Duration::from_secs(2)) {
+                        Ok(mut s) => {
+                            let _ = s.set_nodelay(true);
+                            let _ = s.set_write_timeout(Some(Duration::from_secs(2)));
+                            let _ = s.write_all(&expand(p));
+                            held.push(s);
+                        }
+                        // the listen queue no longer drains: stop, the probes will tell
+                        Err(_) => break,
+                    }
                 }
+            }
+            if held.is_empty() && !peers.is_empty() {
+                skipped = true;
             }
             if *settle_ms > 0 {
                 std::thread::sleep(Duration::from_millis(*settle_ms));
@@ -2150,7 +2224,7 @@ fn run_case(c: &Case, addrs: &[SocketAddr], accept_errors: &[Arc<AtomicUsize>]) 
             Line {
                 group: "tls-stall",
                 case: serde_json::to_value(c).unwrap(),
-                obs: json!({"peers_held": n_held, "alive": alive, "tls_health_while_stalled": [h1, h2],
+                obs: json!({"peers_wanted": peers.len(), "peers_held": n_held, "skipped_fd_limit": skipped, "alive": alive, "tls_health_while_stalled": [h1, h2],
                             "tls_health_after": h3, "stalled_peers_answered": stalled_answers}),
                 coq: format!(
                     "CTlsStall {} {} {} {} {} {} {}",
@@ -2165,6 +2239,11 @@ fn run_case(c: &Case, addrs: &[SocketAddr], accept_errors: &[Arc<AtomicUsize>]) 
                 tags: vec![
                     format!("kind:{}", kind),
                     format!("stalled-peers:{}", n_held),
+                    format!(
+                        "stalled-peers-wanted:{}:{}",
+                        peers.len(),
+                        if skipped { "skipped(fd-limit)" } else if n_held == peers.len() { "all-held" } else { "partly-held" }
+                    ),
                     format!("tls-alive:{}", alive),
                     format!("tls-health-while-stalled:{}/{}", h1, h2),
                     format!("tls-health:{}", h3),
@@ -2184,6 +2263,7 @@ fn main() {
                 .collect(),
             None => generate(opts),
         };
+        raise_fd_limit();
         let runtime = rt();
         let Servers { servers, accept_errors } = runtime.block_on(async { start_all() });
         let addrs: Vec<SocketAddr> = servers.iter().map(|s| s.local_addr()).collect();
